@@ -308,25 +308,24 @@ def dec_result(t):
 # ------------------------------------------------------------------------------------------------
 def py_observe(r):
     return {
-        'as_list': [canon(x) for x in r.as_list()],
-        'as_dict': canon(r.as_dict()),
-        'keys': list(r.keys()),
-        'values': [canon(x) for x in r.values()],
-        'len': len(r), 'bool': bool(r), 'haskeys': r.haskeys(),
-        'str': str(r), 'repr': repr(r), 'dump': r.dump(),
+        'keys': list(r.keys()), 'len': len(r), 'bool': bool(r), 'haskeys': r.haskeys(),
+        'str': shash(str(r)), 'repr': shash(repr(r)), 'dump': shash(r.dump()),
         'get_name': r.get_name(),
     }
 
 
+def shash(s):
+    acc = 5381
+    for ch in s:
+        acc = ((acc << 5) + acc + ord(ch) + 1) & 2305843009213693951
+    return acc
+
+
 def dec_observe(t):
-    al, ad, ks, vs, ln, bl, hk, s, rp, dp, gn = t
+    ks, ln, bl, hk, s, rp, dp, gn = t
     return {
-        'as_list': [dec_tok(x) for x in al],
-        'as_dict': ('d', [(dec_str(k), dec_dval(v)) for k, v in ad]),
-        'keys': [dec_str(x) for x in ks],
-        'values': [dec_tok(x) for x in vs],
-        'len': ln, 'bool': bl, 'haskeys': hk,
-        'str': dec_str(s), 'repr': dec_str(rp), 'dump': dec_str(dp),
+        'keys': [dec_str(x) for x in ks], 'len': ln, 'bool': bl, 'haskeys': hk,
+        'str': s, 'repr': rp, 'dump': dp,
         'get_name': dec_opt(gn, dec_str),
     }
 
@@ -452,6 +451,7 @@ class Shadow:
             if k == 'aslist': return ('toks', [Shadow.as_list_item(v) for v in self.lst])
             if k == 'asdict': return ('dict', self.as_dict())
             if k in ('copy', 'deepcopy', 'pickle'): return ('pres', self.copy().state())
+            if k == 'getnamem': return ('none',)          # not a function of the views
         except EXC as e:
             return ('exc', type(e).__name__)
         raise ValueError(op)
@@ -466,3 +466,41 @@ def vresult(res):
     if k == 'dict': return ('dict', vcanon(res[1]))
     if k == 'pres': return ('pres', vcanon(res[1]))
     return res
+
+
+# ------------------------------------------------------------------------------------------------
+# structural state hash (model: hash_pres in Model/ResultsSpec.v)
+# ------------------------------------------------------------------------------------------------
+MASK = 2305843009213693951
+
+
+def hmix(a, b):
+    return (a * 1114129 + b + 1) & MASK
+
+
+def hash_z(z):
+    return abs(z) * 2 + (1 if z < 0 else 0)
+
+
+def hash_canon(c):
+    t = c[0]
+    if t == 's': return hmix(1, shash(c[1]))
+    if t == 'b': return hmix(3, 1 if c[1] else 0)
+    if t == 'i': return hmix(2, hash_z(c[1]))
+    if t == 'n': return 4
+    if t == 'l':
+        acc = 5
+        for x in c[1]:
+            acc = hmix(acc, hash_canon(x))
+        return acc
+    if t == 'pr':
+        ht = 6
+        for x in c[1]:
+            ht = hmix(ht, hash_canon(x))
+        hd = 8
+        for k, occ in c[2]:
+            hd = hmix(hd, shash(k))
+            for v, p in occ:
+                hd = hmix(hmix(hd, hash_canon(v)), hash_z(p))
+        return hmix(hmix(ht, hd), hmix(9, shash(c[4])) if c[4] is not None else 10)
+    raise TypeError(t)
